@@ -83,7 +83,7 @@ theorem processDeal_genuine (c : Cfg F G) (d : Gen F G) (m : DkgDeal F G) (hd : 
         rcases hdeal : m.deal with _ | e
         · exact key ver (by intro a dl ha; rw [hva] at ha; cases ha)
         · simp only
-          rcases pe_fresh c.g ver e 0 hva (by rw [hvi, hvv]; exact hd.lt) with ⟨err, herr⟩ | ⟨dl, r, a, hdec, hpe, _, _, _, _, hshare, _, _, _, _, _, h6, _⟩
+          rcases pe_fresh c.g ver e 0 hva (by rw [hvi, hvv]; exact hd.lt) with ⟨err, herr⟩ | ⟨dl, r, a, hdec, hpe, _, _, _, _, hshare, _, _, _, _, _, h6, _, _⟩
           · rw [herr]; exact key ver (by intro a dl ha; rw [hva] at ha; cases ha)
           · rw [hpe]
             simp only
